@@ -262,7 +262,7 @@ func init() {
 	Register(Spec[pcCase]{
 		ID: "C10", Suite: "offer", CoqImports: imports,
 		CoqType: "Check.CodecPC.pc_case", CoqRun: "Check.CodecPC.run",
-		Quick: 700, Thorough: 25000, Parallel: 8,
+		Quick: 700, Thorough: 10000, Parallel: 8,
 		Corpus: func() []pcCase { return c10Corpus(false) },
 		Gen:    func(r *Rand, _ int) pcCase { return pcGen(r, false) },
 		Run:    c10Run, Coq: pcCoq, Shrink: pcShrink,
@@ -270,7 +270,7 @@ func init() {
 	Register(Spec[pcCase]{
 		ID: "C10", Suite: "answer", CoqImports: imports,
 		CoqType: "Check.CodecPC.pc_case", CoqRun: "Check.CodecPC.run",
-		Quick: 900, Thorough: 30000, Parallel: 8,
+		Quick: 900, Thorough: 12000, Parallel: 8,
 		Corpus: func() []pcCase { return c10Corpus(true) },
 		Gen:    func(r *Rand, _ int) pcCase { return pcGen(r, true) },
 		Run:    c10Run, Coq: pcCoq, Shrink: pcShrink,
@@ -278,7 +278,7 @@ func init() {
 	Register(Spec[[]cdc]{
 		ID: "C10", Suite: "filter", CoqImports: imports,
 		CoqType: "list codec_in", CoqRun: "Check.C10.run_filter",
-		Quick: 1200, Thorough: 60000, Parallel: 8,
+		Quick: 1200, Thorough: 20000, Parallel: 8,
 		Corpus: func() [][]cdc {
 			return [][]cdc{
 				{{Mime: "video/rtx", Clock: 90000, Line: "apt=99", PT: 97}, {Mime: "video/rtx", Clock: 90000, Line: "apt=97", PT: 98}},
